@@ -53,6 +53,8 @@ JUNK_TEXT = ["1E+600000000", "1E+999999999999", "-1E-600000000", "9" * 5000, "1"
              "{urn:example:orders:schema:v1:purchaseOrder items}po", "{http://example.com/" + "a/" * 20 + "b c}x", "{urn:" + "a" * 40 + "|}x", "{urn:" + "a:" * 30 + "^}x", "urn:" + "a" * 40 + " b",
              "a" * 30 + "!", "1" * 40 + "x", "P" + "1Y" * 30, "P" + "1" * 60 + "Z", "PT" + "1" * 40 + ".S", "-" * 40, "2020-01-01T00:00:00." + "9" * 40 + "x", "1 " * 40 + "x", "A" * 64 + "=!", "0" * 60 + "e", "+" + "1" * 50 + ".", "2020-01-01" + "+" * 30, "é" * 40 + "!",
              " " * 60 + "x", "x" + " " * 60, "a:" * 40, "(" * 40, "\\" * 40,
+             # Clark notation around things a URL parser trips over
+             "{http://[::1}Leaf", "{//]}x", "{http://[host]/a}b", "{//[}a", "{http://[::1]:x/}a", "{http://a:b:c/}d", "{http://%zz/}a", "{file:///[}a", "{urn:a-b}c", "{http://a/#b#c}d", "{\\\\host\\share}a",
              # magnitudes beyond float / int64 / the int-to-str digit limit inside otherwise legal forms
              "1" + "0" * 400 + "-01-01T00:00:00", "-" + "9" * 400 + "-12-31", "1" + "0" * 400 + "-01-01", "1" + "0" * 5000 + "-01-01T00:00:00Z", "P" + "9" * 400 + "Y", "PT" + "9" * 400 + "S", "P1Y" + "9" * 400 + "M",
              "12:00:00." + "9" * 400, "2020-01-01T12:00:00+" + "9" * 30 + ":00", "--" + "9" * 400, "1" + "0" * 4400, "-" + "1" + "0" * 4400, "1" * 4301, "0." + "0" * 4400 + "1", "1E" + "9" * 30, "1e-" + "9" * 30]
@@ -607,7 +609,7 @@ def apply_json_struct_fault(value, f):
 # ---------------------------------------------------------------- case generation
 def gen_case(seed):
     rng = random.Random(seed)
-    decoder = rng.choice(["xml-lxml", "xml-native", "xml-lxml", "xml-native", "xml-lxml", "xml-native", "json", "json", "dict", "dict", "xml-tree-lxml", "xml-tree-native", "xml-src-lxml", "xml-src-native", "xml-path-lxml", "xml-path-native"])
+    decoder = rng.choice(["xml-lxml", "xml-native", "xml-lxml", "xml-native", "xml-lxml", "xml-native", "json", "json", "dict", "dict", "xml-tree-lxml", "xml-tree-native", "xml-src-lxml", "xml-src-native", "xml-path-lxml", "xml-path-native", "xml-str-lxml", "xml-str-native"])
     if decoder.startswith("xml"):
         name = rng.choice(sorted(Store.xml))
         n = len(Store.xml[name][0])
@@ -838,7 +840,7 @@ def make_decoder(case, context):
     dec = case["decoder"]
     if dec.startswith("xml-tree-"):
         return parsers.TreeParser(config=cfg, context=context, handler=O._handlers()[dec.split("-")[2]])
-    if dec.startswith(("xml-src-", "xml-path-")):
+    if dec.startswith(("xml-src-", "xml-path-", "xml-str-")):
         return parsers.XmlParser(config=cfg, context=context, handler=O._handlers()[dec.split("-")[2]])
     if dec == "xml-lxml":
         return parsers.XmlParser(config=cfg, context=context, handler=O._handlers()["lxml"])
@@ -950,6 +952,14 @@ def run_case(case, context, meter, base_steps):
             warnings.simplefilter("ignore")
             if dec == "dict":
                 result = tool.decode(payload, clazz)
+            elif dec.startswith("xml-str-"):
+                # the caller holds the document as text (every byte string is some text: latin-1 maps bytes to code points 1:1,
+                # UTF-8 text stays itself when it decodes) and leaves the encoding to the library
+                try:
+                    text = payload.decode("utf-8")
+                except UnicodeDecodeError:
+                    text = payload.decode("latin-1")
+                result = tool.from_string(text, clazz)
             elif dec.startswith("xml-path-"):
                 # the document is a file the library opens itself; its name says nothing about its content
                 result = tool.from_path(stored_file(payload, case), clazz)
